@@ -81,8 +81,8 @@ let direct id c =
               count "binary_files"; if find 0 (ni f) <> [] then propfail id (Printf.sprintf "binary file f%d has line statistics" (ni f))
           | _ -> count "overwritten_entries") changes
       end else begin
-        count "direct_merge";
-        if real <> [] then propfail id "line statistics reported for a merge step"
+        (* the property says nothing about merge steps; the model (no statistics) is compared above *)
+        count "direct_merge"
       end
   | _ -> mismatch id ("direct: the implementation failed: " ^ String.concat " " (List.map string_of_sx obs))
 
@@ -98,7 +98,8 @@ let pipe id c =
   match args obs with
   | [o] when tag o = "empty" -> count "pipe_empty"
   | [o] when tag o = "panic" || tag o = "error" ->
-      propfail id ("the pipeline run failed: " ^ tag o)
+      (* no result to judge; the model never fails *)
+      mismatch id ("the pipeline run failed: " ^ tag o)
   | _ ->
   count "pipe_cases";
   (* --- the plan of a separate planner call: informational, the planner is not deterministic across calls *)
